@@ -298,11 +298,11 @@ def build_family(case: dict[str, Any]) -> tuple[dict[str, str], str]:
         return tpls, "t0"
     if kind == "include-in-block":
         # an include inside an overridden block leads back to the extending template
-        tpls["t0"] = "{% extends 't1' %}{% block b %}B0" + wrap("{% include 't0' %}", ws) + "{% endblock %}"
+        tpls["t0"] = "{% extends 't1' %}{% block b %}B0" + wrap("{% include 't0' %}" * case.get("fanout", 1), ws) + "{% endblock %}"
         tpls["t1"] = "<t1>{% block b %}B1{% endblock %}"
         return tpls, "t0"
     if kind == "render-extends":
-        tpls["t0"] = "{% extends 't1' %}{% block b %}B0" + wrap("{% render 't0' %}", ws) + "{% endblock %}"
+        tpls["t0"] = "{% extends 't1' %}{% block b %}B0" + wrap("{% render 't0' %}" * case.get("fanout", 1), ws) + "{% endblock %}"
         tpls["t1"] = "<t1>{% block b %}B1{% endblock %}"
         return tpls, "t0"
     raise ValueError(kind)
@@ -562,6 +562,14 @@ def tolerant_family_cases(ctx: core.Ctx):
                         if tags:
                             c["tags"] = tags
                         yield c
+        # a partial that extends a base and calls itself from an overridden block (the base is rendered as a template of its own at every level)
+        for fam in ("render-extends", "include-in-block"):
+            for fanout in (1, 2, 3):
+                for ws in ([], ["if"], ["for", "if"]):
+                    k += 1
+                    if k % ctx.nshards != ctx.shard:
+                        continue
+                    yield {"kind": "family", "family": fam, "cycle": 1, "wrappers": ws, "async": k % 2 == 0, "must_cut": False, "mode": mode, "fanout": fanout}
 
 
 def cases(ctx: core.Ctx):
